@@ -163,7 +163,8 @@ def rows_of(run_id, events):
             obs.append({"t": e["t"], "i": e["i"], "a": "skip", "x": "-", "exp": e["a"]})
         elif k == "TagObs":
             for o in e["obs"]:
-                rows.append({"e": "tagobs", "tag": tag_rec(o["tag"]), "ino": o.get("ino", 0)})
+                rows.append({"e": "tagobs", "tag": tag_rec(o["tag"]), "ino": o.get("ino", 0), "sameino": bool(o.get("tag_same_inode")),
+                             "changed": bool(o.get("tag_changed")), "oldfd": o.get("tag_oldfd") is not None})
             obs.append({"t": "-", "i": 0, "a": "tagobs", "x": "-", "seen": [o["tag"] for o in e["obs"]]})
         elif k == "Step":
             fin = abs_index(T, int(e["fin"]))
@@ -174,10 +175,12 @@ def rows_of(run_id, events):
             first = (not env_step) and e.get("stage") == 1
             r = {"e": "step", "t": e["t"], "i": e["i"], "op": op, "g": g, "first": first, "done": done,
                  "x": "-" if env_step else e.get("sub", "-"), "flags": flag_names(e["flags"]), "fin": fin,
-                 "latch": bool(e["latch"]), "tag": tag_rec(e["tag"])}
+                 "latch": bool(e["latch"]), "tag": tag_rec(e["tag"]), "sameino": bool(e.get("tag_same_inode")),
+                 "changed": bool(e.get("tag_changed")), "oldfd": e.get("tag_oldfd") is not None}
             o = {"t": e["t"], "i": e["i"], "a": e["a"], "x": e["x"], "op": op, "g": g, "stage": e.get("stage", 0),
                  "flags": r["flags"], "fin": fin, "tag": r["tag"], "out": e["out"], "nowait": bool(e.get("nowait")),
-                 "extra": bool(e.get("extra")), "exp": e.get("exp", "-")}
+                 "extra": bool(e.get("extra")), "exp": e.get("exp", "-"), "tag_raw": e["tag"], "tag_ino": e.get("tag_ino"),
+                 "tag_oldfd": e.get("tag_oldfd")}
             if op == "Q":
                 qk = e.get("qkind")
                 q = 0 if qk in ("zero", "nohdr", "neg") else FUTURE if qk == "future" else abs_index(T, int(e["q"]))
@@ -298,6 +301,8 @@ def signature(prop, rows, race_writers=0):
         return {"kind": "zero-tick-query-reports-finished"}
     if prop == "QueryTruthPos":
         return {"kind": "premature-finished"}
+    if prop == "TagInPlace":
+        return {"kind": "tag-modified-in-place"}
     if prop in ("TagAtomic", "TagRenameOnly"):
         if race_writers >= 2:
             return {"kind": "shared-tag-tmp"}
@@ -307,6 +312,28 @@ def signature(prop, rows, race_writers=0):
 
 
 # ---------------------------------------------------------------------------------------------------------------------
+
+def tag_histories():
+    """directed schedules for the status file: the deadline passes with one subsystem missing (non-empty status.tag),
+    the missing subsystem reports later (the tag becomes the empty success marker); then a key latch reset, a second
+    deadline (non-empty again) and a re-latch (empty again).  status.tag is looked at after every step by a reader
+    that keeps the previous file open."""
+    sub = {"rd": "R", "ls": "L", "kk": "K"}
+    out = []
+
+    def whole(t, a):
+        return [{"t": t, "i": 0, "a": a, "x": sub[t] if a != "tstate" else "-"}, {"t": t, "i": 0, "a": "drain", "x": "-"}]
+    tick = {"t": "env", "i": 0, "a": "tick", "x": "-"}
+    for missing in ("rd", "ls", "kk"):
+        st = []
+        for t in ("rd", "ls", "kk"):
+            if t != missing:
+                st += whole(t, "upd")
+        st += [tick] + whole("kk", "tstate") + [tick] + whole(missing, "upd") + [tick]
+        st += whole("kk", "reset") + whole("kk", "tstate") + [tick] + whole("kk", "upd")
+        out.append(st)
+    return out
+
 
 def overtake_probes():
     """directed I->S schedules: a readiness report (all its messages) lands between two consecutive messages of another
@@ -446,7 +473,7 @@ def run(c):
         runs.append(spec)
         meta[rid] = {"kind": "auto", "spec": spec}
     # 4b. I->S, directed: a readiness report overtakes between any two consecutive messages of another task
-    probes = overtake_probes()
+    probes = tag_histories() + overtake_probes()
     for n, st in enumerate(probes):
         rid = "probe%d" % n
         runs.append({"id": rid, "mode": "replay", "steps": st})
@@ -557,8 +584,13 @@ def run(c):
             for o in obs2:
                 if o.get("g") and o["t"] != "env":
                     gates.setdefault("%s%s" % (o["t"], o["i"] or ""), []).append(o["g"])
-            what = ("C16 %s fails on the real code, schedule [%s]; messages per task %s; answers %s%s"
-                    % (prop, label(art["steps"]), gates, answers, (" status.tag seen by a reader: %r" % tags[0]) if tags else ""))
+            hist_tag = []
+            for o in obs2:
+                if "tag_raw" in o and (not hist_tag or hist_tag[-1][:2] != [o["tag_ino"], o["tag_raw"]] or o.get("tag_oldfd")):
+                    hist_tag.append([o["tag_ino"], o["tag_raw"], o.get("tag_oldfd")])
+            what = ("C16 %s fails on the real code, schedule [%s]; messages per task %s; answers %s%s%s"
+                    % (prop, label(art["steps"]), gates, answers, (" status.tag seen by a reader: %r" % tags[0]) if tags else "",
+                       (" status.tag after the steps [inode, content, old descriptor]: %r" % hist_tag[:6]) if prop == "TagInPlace" else ""))
             c.violation(what, sig, {"driver": "VERIF_CMD=provision", "run": art, "strace_delays_ms": [400, 300] if m["kind"] == "race" else None,
                                     "property": prop, "observed_rows": rows2})
     # design-level candidates that the real code does not show
